@@ -26,7 +26,8 @@ let report lineno line (f : fail) =
   if c < !max_report then begin
     Hashtbl.replace reported key (c + 1);
     let line = if String.length line > 1500 then String.sub line 0 1500 ^ "..." else line in
-    Printf.printf "FAIL %s line=%d %s :: %s\n" f.tag lineno f.msg line
+    let one_line m = String.concat "\\n" (String.split_on_char '\n' m) in
+    Printf.printf "FAIL %s line=%d %s :: %s\n" f.tag lineno (one_line f.msg) line
   end
 
 let k tag cond msg = if cond then [] else [ { tag = "K:" ^ tag; msg = msg () } ]
